@@ -385,7 +385,22 @@ func HarnessWorld(prop, m1, m2, steps, kinds, faults int) {
 		if len(enabled) == 0 {
 			break
 		}
+		// when nothing but faults can still happen (a disconnect, a loss, time passing ...) the schedule may
+		// also simply end here: a client left waiting must not be hidden by a fault it is then forced to suffer
+		progress := false
+		for _, x := range enabled {
+			if x.kind == 0 || x.kind == 1 || x.kind == 2 || x.kind == 9 || x.kind == 10 {
+				progress = true
+			}
+		}
+		if !progress {
+			enabled = append(enabled, ev{99, 0})
+		}
 		e := enabled[verifrt.Choice("event", len(enabled))]
+		if e.kind == 99 {
+			verifrt.Note("step " + vItoa(s) + " -> end of schedule")
+			break
+		}
 		lastEvent = e.kind
 		{
 			// trace line (shown by `gosym trace`): step, pending flag, enabled events, the chosen one
